@@ -22,6 +22,7 @@ EXPLANATION = (
     " (COPY environment) instantiating a generalised function's type leaves everything reachable from the variables that have one type at that point (parameters, locals and case variables of the functions being checked, non-function definitions) shared; parameters enter that set before the body is checked, non-generalised definitions when they are defined."
     ' (VALUE-PATH end-not-reached) every answer `true` of the predicate that lifts the fall-off-the-end and missing-value guards is justified per kind of last statement (ret, <!>, break, continue; a block; an if with else; a case): a reason outside the reviewed table is reported, a stricter one passes. (quotient) the dividend of a division carries a constraint that names the quotient.'
     ' (GUARD discipline, shared) the visited set of a guarded walk is not shared between constraints; (VALUE-PATH every-branch-counts) what a branch contributes to the valueless verdict reads nothing else the loop updates.'
+    " (expression_block obligations, shared with C03) what a block's last expression returns is part of what the block returns; (VALUE-PATH trailing-value-always-compared) only the test on the declared return type stands in front of comparing the trailing value with the `ret`s."
 )
 UNDECIDED = ("soundness of unification with deferred constraints as a theorem; run-time behaviour of `external` code; "
              "nothing else about the runtime library.")
